@@ -124,6 +124,13 @@ CHECKS['C09'] = dict(
          '(type, innermost pgradd frame). Non-termination is detected by counting ParseState.peek/take calls against 2000+200*len. Accepted text followed by a junk token must not be accepted. Exploration (thorough tier adds an atheris campaign).',
     note='Trusted: nothing of the parser. The step bound makes "bounded time" deterministic; a SIGALRM backstop only marks runs inconclusive.',
     ref='DESIGN.md C09')
+CHECKS['C16'] = dict(
+    technique='Hypothesis rules generated with electron bookkeeping (balanced / deliberately unbalanced), differential against an own graph-rewriting reference on reference matches; labelled-graph isomorphism of product sets',
+    text='Unimolecular rules (reactant fragment of 1-4 atoms, often abstracted from the molecule they run on; break/form/increase/decrease/modify bond, radical and charge edits; random layout) are read: an independent '
+         'electron-balance count must predict acceptance vs RINGReaderError; accepted rules are run on small molecules and radicals and must return one product set per reference match, each equal (as a labelled graph) to '
+         'the declared edit applied at the matched atoms, conserving atoms per element. Exploration.',
+    note='Trusted: RDKit AddHs/SMILES reading; networkx isomorphism. Reference matches come from vlib/ringref.py (C08 compares it with the library).',
+    ref='DESIGN.md C16')
 NOT_YET = {}
 
 def main():
